@@ -10,6 +10,7 @@ import (
 
 	saml2 "github.com/russellhaering/gosaml2"
 	"github.com/russellhaering/gosaml2/types"
+	dsig "github.com/russellhaering/goxmldsig"
 
 	"verif/harness/mon"
 	"verif/harness/sim"
@@ -17,7 +18,7 @@ import (
 
 func init() {
 	register(&Prop{ID: "C11", Run: runC11, MinNontrivial: 500,
-		Rule:        "direct class: byte strings of every length 0-48 (random, trailing zero bytes, all zero) encrypted by the harness under each of the 5 advertised data algorithms x {OAEP-MGF1P, OAEP-1.1} x digest {absent, \"\", SHA-1, SHA-256, SHA-512} + PKCS#1 v1.5, EncryptedKey inline or detached, recipient certificate absent or matching, CBC filler PKCS#7/zeros/random, decoded through the library's own struct tags and decrypted with DecryptBytes/Decrypt -> plaintext equality; twin class: an IdP-signed assertion padded to every residue mod 16, presented encrypted and plain to SPs keyed by field / setter / both(same) / both(different, setter wins) -> same outcome and data; non-trivial = the decryption routine ran (no parse failure before it); distinct by parameter tuple",
+		Rule:        "direct class: byte strings of every length 0-48 (random, trailing zero bytes, all zero) encrypted by the harness under each of the 5 advertised data algorithms x {OAEP-MGF1P, OAEP-1.1} x digest {absent, \"\", SHA-1, SHA-256, SHA-512} + PKCS#1 v1.5, EncryptedKey inline or detached, recipient certificate absent or matching, CBC filler PKCS#7/zeros/random, decoded through the library's own struct tags and decrypted with DecryptBytes/Decrypt -> plaintext equality; twin class: an IdP-signed assertion padded to every residue mod 16, presented encrypted and plain to SPs keyed by field (X509KeyStore or tls.Certificate store) / setter / both(same) / both(different, setter wins) -> same outcome and data; non-trivial = the decryption routine ran (no parse failure before it); distinct by parameter tuple",
 		Assumptions: []string{"OAEP is produced with rsa.EncryptOAEP(h) (same hash for label and MGF1), the inverse of what the library calls; the property fixes no MGF", "setter keys are *rsa.PrivateKey values (a crypto.Signer that cannot decrypt cannot be an encryption key)"}})
 }
 
@@ -46,6 +47,22 @@ func c11KeyConfigs() []c11key {
 			sp.SPKeyStore = &RSAKeyStore{C: w.SPEnc}
 			sp.SetSPKeyStore(&saml2.KeyStore{Signer: other.Key.Signer, Cert: other.DER})
 			return other // the setter's key replaces the field's
+		}},
+		{"field-tlscert", func(w *World, sp *saml2.SAMLServiceProvider) *sim.Cert {
+			sp.SPKeyStore = dsig.TLSCertKeyStore(tls.Certificate{Certificate: [][]byte{w.SPEnc.DER}, PrivateKey: w.SPEnc.Key.RSA()})
+			return w.SPEnc
+		}},
+		{"both-different-tlscert-field", func(w *World, sp *saml2.SAMLServiceProvider) *sim.Cert {
+			// the field still holds the previous key pair (as a tls.Certificate store); the setter holds the current one
+			other := sim.Wide(sim.K("spenc2"), w.Now)
+			sp.SPKeyStore = dsig.TLSCertKeyStore(tls.Certificate{Certificate: [][]byte{w.SPEnc.DER}, PrivateKey: w.SPEnc.Key.RSA()})
+			sp.SetSPKeyStore(&saml2.KeyStore{Signer: other.Key.Signer, Cert: other.DER})
+			return other
+		}},
+		{"both-same-tlscert-field", func(w *World, sp *saml2.SAMLServiceProvider) *sim.Cert {
+			sp.SPKeyStore = dsig.TLSCertKeyStore(tls.Certificate{Certificate: [][]byte{w.SPEnc.DER}, PrivateKey: w.SPEnc.Key.RSA()})
+			sp.SetSPKeyStore(&saml2.KeyStore{Signer: w.SPEnc.Key.Signer, Cert: w.SPEnc.DER})
+			return w.SPEnc
 		}},
 		{"setter+signing-field", func(w *World, sp *saml2.SAMLServiceProvider) *sim.Cert {
 			sp.SetSPKeyStore(&saml2.KeyStore{Signer: w.SPEnc.Key.Signer, Cert: w.SPEnc.DER})
